@@ -513,6 +513,8 @@ func randomQR(g *Rng, n *big.Int) *big.Int {
 }
 
 func genC09(g *Rng, tier string, emit func(Op)) {
+	// (last) a witness whose signed accumulator was installed undecoded, as read from storage
+	defer func() { emit(installedWitnessCopyOp(g, fixedKey("k1024a", true))) }()
 	keys := []*KeyPair{toyKey("toy1", 3), fixedKey("k1024a", true)}
 	// a short key whose group order (about 158 bits) lies below the longer revocation values
 	shortKey := shortRevKey("short160", 160)
